@@ -5,6 +5,8 @@ import (
 	"encoding/base64"
 	"fmt"
 	"math/big"
+	"os"
+	"time"
 
 	ecommon "github.com/ethereum/go-ethereum/common"
 	ecrypto "github.com/ethereum/go-ethereum/crypto"
@@ -264,9 +266,9 @@ func buildEntries(p *pair, env0 *stateEnv) (*stateEnv, string) {
 		pr := b.send(owner, types.AcceleratorContract, znn, new(big.Int).Set(constants.ProjectCreationAmount),
 			definition.ABIAccelerator.PackMethodPanic(definition.CreateProjectMethodName, "c09 project", "a project", "zenon.network", big8(100), big8(1000)))
 		add("accelerator", pr.Hash)
-		b.send(rich, types.AcceleratorContract, znn, big8(2000), definition.ABICommon.PackMethodPanic(definition.DonateMethodName))
+		b.send(g.Pillar5, types.AcceleratorContract, znn, big8(2000), definition.ABICommon.PackMethodPanic(definition.DonateMethodName))
 		b.step()
-		b.send(rich, types.AcceleratorContract, qsr, big8(20000), definition.ABICommon.PackMethodPanic(definition.DonateMethodName))
+		b.send(g.Pillar5, types.AcceleratorContract, qsr, big8(20000), definition.ABICommon.PackMethodPanic(definition.DonateMethodName))
 		for i, k := range []*wallet.KeyPair{g.Pillar1, g.Pillar2, g.Pillar3} {
 			name := []string{g.Pillar1Name, g.Pillar2Name, g.Pillar3Name}[i]
 			b.send(k, types.AcceleratorContract, znn, big.NewInt(0), definition.ABICommon.PackMethodPanic(definition.VoteByNameMethodName, pr.Hash, name, uint8(0)))
@@ -367,8 +369,13 @@ func buildMatured(p *pair, env0 *stateEnv) (*stateEnv, string) {
 		return env, "matured: " + err.Error()
 	}
 	// one momentum far in the future (slots in between are missed), produced by whoever is elected for that slot
+	t0 := time.Now()
 	if err := produceSkipping(n, skip); err != nil {
 		return env, "matured: " + err.Error()
+	}
+	if os.Getenv("C09_TIMING") != "" {
+		fmt.Println("skip momentum:", time.Since(t0))
+		defer func() { fmt.Println("matured total:", time.Since(t0)) }()
 	}
 	if _, err := drainInboxes(n); err != nil {
 		return env, err.Error()
@@ -387,7 +394,11 @@ func buildMatured(p *pair, env0 *stateEnv) (*stateEnv, string) {
 	for _, u := range upd {
 		b.send(stranger, u.to, znn, big.NewInt(0), u.data)
 	}
+	t1 := time.Now()
 	b.step()
+	if os.Getenv("C09_TIMING") != "" {
+		fmt.Println("update step:", time.Since(t1))
+	}
 	b.step() // token contract mints what the updates asked for
 	b.step()
 	return env, b.fail
